@@ -144,6 +144,22 @@ fn run_mismatch(ev: &Ev) -> String {
         "from_cofactors(mismatched)" => format!("{:?}", Lut::from_cofactors(&a, &b, 0).blocks()),
         "bdd_complexity(mixed)" => format!("{}", Lut::bdd_complexity(&[a, b])),
         "bdd_complexity(mixed-3)" => format!("{}", Lut::bdd_complexity(&[a.clone(), a, b])),
+        "bdd_complexity(mixed-list)" => {
+            // ints[2..] = the sizes of the listed tables (not all equal); tables are projections / constants
+            let list: Vec<Lut> = ev.ints[2..]
+                .iter()
+                .enumerate()
+                .map(|(k, s)| {
+                    let s = *s as usize;
+                    if s > 0 && k % 2 == 0 {
+                        Lut::nth_var(s, k % s)
+                    } else {
+                        Lut::one(s)
+                    }
+                })
+                .collect();
+            format!("{}", Lut::bdd_complexity(&list))
+        }
         other => panic!("harness: unknown mismatch op {}", other),
     }
 }
@@ -286,6 +302,34 @@ fn main() {
             for op in ["and-form", "or-form", "xor-form"] {
                 for form in 0..8 {
                     let ev = Ev::new(op, "Lut-mismatch", n).tab(&a).tab(&b).int(nb).int(form);
+                    part_a(&mut ctx, &mut log, &ev);
+                }
+            }
+            // lists of 3..6 tables of mixed sizes: one odd size anywhere, and size multisets whose total bit count
+            // equals that of a uniform list (a, a+1, a-1, a-1 and permutations, padded with more a's)
+            if nb == n + 1 && n >= 1 {
+                let s = n as u64;
+                let mut lists: Vec<Vec<u64>> = vec![
+                    vec![s, s + 1, s - 1, s - 1],
+                    vec![s, s - 1, s + 1, s - 1],
+                    vec![s, s - 1, s - 1, s + 1],
+                    vec![s, s, s + 1, s - 1, s - 1],
+                    vec![s, s + 1, s - 1, s - 1, s],
+                    vec![s, s, s, s + 1],
+                    vec![s, s - 1, s, s],
+                    vec![s + 1, s, s],
+                ];
+                for _ in 0..6 {
+                    let len = rng.range(3, 6);
+                    let mut l: Vec<u64> = (0..len).map(|_| rng.below(9) as u64).collect();
+                    if l.iter().all(|x| *x == l[0]) {
+                        l[len - 1] = (l[0] + 1) % 9;
+                    }
+                    lists.push(l);
+                }
+                for l in lists {
+                    let mut ev = Ev::new("bdd_complexity(mixed-list)", "Lut-mismatch", n).tab(&a).tab(&b).int(nb).int(0);
+                    ev.ints.extend(l);
                     part_a(&mut ctx, &mut log, &ev);
                 }
             }
